@@ -5,6 +5,31 @@ HERE = os.path.dirname(os.path.dirname(os.path.abspath(__file__)))
 
 # id -> (engine, category, technique, text, note)
 CHECKS = {
+ "C01": ("E3 shellsim (real handle_srt_packet / handle_uplink_packet / flush_all_batches / handle_housekeeping over loopback, virtual clock)", "exploration",
+         "stateful property testing with a wire-log monitor: generated event-loop interleavings and faults; per-link queue equation wire ++ queue_after == queue_before ++ routed after every step",
+         "For generated interleavings of the event loop's arms (client datagrams of every kind, length 1..1500 and sequence number incl. repeats; real uplink packets; flush ticks; housekeeping; clock steps; all batch regimes; send failures via EPIPE; re-registration) on 1..4 uplinks in both modes with the guard on/off: nothing is invented, corrupted, reordered per link or duplicated except counted probe copies on stall-gated links (<= ceil(n/100)); queue depth <= 32 after every step and 0 after a flush tick; a datagram leaves a queue without reaching the wire only on a link that failed or re-registered in that step; a datagram is refused only when no uplink is usable.",
+         "Loopback only (no kernel reordering/loss); client datagrams never carry SRTLA type bytes; pre-registration forwarding is outside the statement. Held on what was explored.",
+         "5/C01"),
+ "C07": ("E1 (real SrtlaRegistrationManager in the shell's call order) + E3 shellsim tier", "exploration",
+         "bounded-exhaustive enumeration of handshake sequences (depth 5-6 over a 16-symbol alphabet) plus generated sequences to depth 60, checked by an independent protocol monitor; shell tier reads REG frames off the wire",
+         "Never a REG1 on a second link while one is outstanding; driver REG1 at a tick only while no uplink is connected; id adopted only from a >=258-byte REG2 on the pending link, exactly bytes 2..258, followed by exactly one broadcast round; every REG1 / registration REG2 carries the adopted id; connected flips only on REG3 on that link; REG_ERR leaves nothing pending; the first tick at/after the 4 s deadline abandons the REG1 and a later REG_NGP produces a new one.",
+         "Tier 1 copies the shell's call order; tier 2 uses the real shell incl. start-up probing and the reconnect re-send path. The immediate REG1 answer to REG_NGP while a link is already connected (driver count from its last pass) is counted in the evidence, not flagged (DESIGN section 11). Exhaustive only to the stated depth.",
+         "5/C07"),
+ "C08": ("E3 shellsim + cooperative receiver model + generated fault schedules", "fault_enumeration",
+         "fault-injection property testing: generated per-link fault schedules on a simulated clock against the real shell; teardown-cause, retry-spacing, bounded-recovery and clean-rejoin monitors",
+         "Over generated schedules of black-holes, one-way loss, lost handshake replies, receiver amnesia (REG_NGP / REG_ERR) and socket send errors on 2..4 links, every timeout setting and both modes: an established link is torn down only after silence >= its timeout, an injected send failure or a REG_ERR; reconnect attempts happen only in housekeeping, >= 1 s apart before the first REG3 and >= 5 s after, and keep coming while the link is down; once faults are over and the receiver holds the adopted id the link is connected within 30 s; a rejoining link has window 20000, zero in-flight, empty queue, warming phase; survivors never drop a datagram while usable.",
+         "Liveness clauses are bounded safety over a 70 s (quick) / 400 s (thorough) simulated horizon. Receiver model written from the protocol docs. Link 0 is always fault-free; an all-links-down run ends where production exits (10 s).",
+         "5/C08"),
+ "C09": ("E3 shellsim (real handle_uplink_packet) + reference classification", "exploration",
+         "property-based testing with structure-aware generated datagrams on generated link states; oracle = reference classification by type, relay byte-equality, liveness and delivery-proof model",
+         "Every generated datagram (all type codes reachable, SRTLA/SRT types over-weighted, lengths around every parser guard up to 1500, SRTLA ACKs naming held seqs, keepalive echoes in every mutation) arriving on links in generated states: internal types never reach the client, everything else of >= 2 bytes reaches it byte-identically at least once and nothing else does (nothing before a client is known); non-registration datagrams refresh liveness; delivery proof moves only for an earned SRTLA ACK (arrival link first) or an echo answered while waiting with 0 < RTT <= 10 s; no panic.",
+         "Reference classification by the first two bytes. Held on what was explored; a libFuzzer target extends the byte-level search in the thorough tier when built.",
+         "5/C09"),
+ "C14": ("E3 shellsim (real handle_housekeeping + handle_uplink_packet) + E1 RTT tracker streams", "exploration",
+         "stateful property testing: generated timed histories of housekeeping ticks and echo policies; keepalive frames decoded with the reference decoder against a pre-tick snapshot",
+         "Keepalive gap on a live link <= 2 x the largest tick spacing; every keepalive is 38 bytes = 0x9000, be64(tick time), magic, version, and window / in-flight / loss count / rate (and id) equal to the pre-tick link state; an echo yields an RTT sample iff a probe was outstanding, the frame has >= 10 bytes and 0 < now - ts <= 10 s; smoothed RTT finite and >= 0 after every op and for arbitrary sample streams 1..10000 ms.",
+         "Establishment counts as tick 0. 'Live' uses the timeout the link itself holds. Held on what was explored.",
+         "5/C14"),
  "C10": ("E3 shellsim closed loop (classic mode, guard off) + refmodel::classic", "exploration",
          "model-based differential testing: generated closed-loop histories on the real shell in lock-step with an independent re-implementation of the reference algorithm",
          "After every op of generated closed-loop histories (client datagrams of every kind incl. retransmit-flagged and critical-window, flushes, real SRTLA ACK / SRT ACK / NAK packets, housekeeping ticks, timeouts, REG3; any starting window vector) the link that received the datagram, every window, in-flight count and queue depth equal those of the reference model (first maximum of window/(in-flight+queued+1); +29 iff in-flight x 1000 > window; +1 per acked number on connected links; -100 per charged NAK; bounds; no tick changes).",
